@@ -78,17 +78,20 @@ TEnd == /\ IsEvent("End") /\ mpc = "done" /\ ~Busy /\ Ev.t >= now
         /\ CheckInv("EventMissingBeforeEnd", IF Future = {} THEN TRUE ELSE MinOf(Future) > Ev.t)
         /\ UNCHANGED vars
 
-\* Which of several equal-order hooks the sorted slice holds next is not logged.  It only shows in (a) which synchronous
-\* hook is entered next -- the next Enter event of a synchronous hook names it -- and (b) whether an asynchronous hook was
-\* launched at all before the loop ended (it then enters at once: it has an Enter event ahead).  The order in which
-\* asynchronous hooks of equal order are launched shows nowhere: the least id stands for all orders.
-Ahead(h) == \E i \in l..TLen : Trace[i].ev = "Enter" /\ Trace[i].kind = "start" /\ Trace[i].id = h
+\* Which of several equal-order hooks the sorted slice holds next is not logged.  It shows in (a) which synchronous hook
+\* is entered next -- the next Enter event of a synchronous hook names it -- and (b) whether and at which instant an
+\* asynchronous hook was launched (it then enters at that very instant: it has an Enter event ahead).  The order in
+\* which asynchronous hooks are launched within one instant shows nowhere; the log is ordered by time: launching them in
+\* the order of their Enter events stands for every order that fits the trace.
+Pos(h) == LET S == {i \in l..TLen : Trace[i].ev = "Enter" /\ Trace[i].kind = "start" /\ Trace[i].id = h}
+          IN IF S = {} THEN 0 ELSE MinOf(S)
 NextSync == LET S == {i \in l..TLen : Trace[i].ev = "Enter" /\ Trace[i].kind = "start" /\ Trace[i].id \in DOMAIN starts /\ ~Async(Trace[i].id)}
             IN IF S = {} THEN 0 ELSE Trace[MinOf(S)].id
 Picks == LET C == NextOf(todoS, starts, "asc")
-             A == {h \in C : Async(h) /\ Ahead(h)}
+             A == {h \in C : Async(h) /\ Pos(h) > 0}
              B == {h \in C : starts[h].typ = "bad"}
-         IN (IF A = {} THEN {} ELSE {MinOf(A)}) \cup (C \cap {NextSync}) \cup (IF B = {} THEN {} ELSE {MinOf(B)})
+         IN (IF A = {} THEN {} ELSE {CHOOSE h \in A : \A g \in A : Pos(h) <= Pos(g)})
+            \cup (C \cap {NextSync}) \cup (IF B = {} THEN {} ELSE {MinOf(B)})
 TTick == Tick /\ Silent /\ l <= TLen /\ Has(Ev, "t") /\ now' <= Ev.t
 TSilent == /\ \/ LoopEnd \/ (\E h \in Picks : LoopPick(h)) \/ Launch \/ SyncHandle \/ Await \/ StopLoopEnd \/ HandleStop \/ Deadline
               \/ \E h \in DOMAIN hs : AsyncHandle(h)
